@@ -724,6 +724,17 @@ theorem distribute_exact (us : E → E) (hus : ∀ e env, eval env (us e) = eval
 example : distLaw id false (.or (.paren (.and (.bcol 0 false) (.bcol 1 false))) (.bcol 2 false))
     = .and (.paren (.or (.bcol 2 false) (.bcol 0 false))) (.paren (.or (.bcol 2 false) (.bcol 1 false))) := by decide
 
+/-- OBJECT LEVEL (complete decision over the regenerated use table): `_distribute` as it is in the source never moves one
+    operand object into two places of its output — every operand that is used more than once (`b.left` / `b.right` once per
+    child of `a`, the loop variable `c` and `a` once per clause) is deep-copied for all uses but at most one -/
+theorem generated_distribute_no_sharing : noSharing Generated.C06.distributeUses = true := by decide
+
+/-- why: building the second clause with `copy=False` (snapshot `distributeUsesCopyFalse`) moves `b.right` once per child of
+    `a`, so one subtree object sits in two clauses and the next in-place distribution step rewrites both -/
+theorem distribute_copy_false_shares :
+    noSharing distributeUsesCopyFalse = false ∧ hasDup [(DOp.bRight, 0), (DOp.bRight, 0)] = true ∧
+    (movedObjects distributeUsesCopyFalse).contains (DOp.bRight, 0) = true := by decide
+
 /-- what `normalize` returns, as checked on every run: from the Boolean check alone — nothing assumed — the result is in
     the requested normal form (mirrored `normalized`) or is the input (possibly with BETWEEN rewritten), and it has the
     same 3-valued truth value as the input under every assignment -/
